@@ -37,6 +37,8 @@ def gen_cases(ctx):
                 cases.append((cfg, G.rand_ops(rng, cfg, rng.randint(2, 6))))
     for _ in range(1500 if ctx.quick else 20000):
         cfg = G.rand_config(rng, maxblocks=5)
+        if rng.random() < 0.25:      # some notifications are refused by a later subscriber (the caller carries on)
+            cfg = dict(cfg, refuse=sorted(rng.sample(range(12), 2)))
         cases.append((cfg, G.rand_ops(rng, cfg, rng.randint(3, 10 if ctx.quick else 25))))
     return cases
 
@@ -55,6 +57,7 @@ def work(case):
     for k, op in enumerate(ops):
         before = {(r.phenomenon_name, r.pattern.name, r.run_id): (r.block_index, hist_list(r.history()))
                   for r in dec.all_runs()}
+        dec.verif_boom.armed = k in cfg.get("refuse", ())      # a later subscriber refuses this notification
         o, lists = SD.apply_op(dec, rec, op)
         out += o
         if lists is None:
